@@ -718,11 +718,11 @@ theorem evalSrc_live (cfg : Cfg) {s : State} (g : Good s) (src : Src) : (evalSrc
   | name n => exact evalTarget_live cfg g.inv n
   | val v => exact g.vals v
 
-theorem act_good (cfg : Cfg) (self : Option ObjId) {s : State} (g : Good s) (a : Act) :
-    (act cfg self s a).All Good := by
+theorem actCore_good (cfg : Cfg) (self : Option ObjId) {s : State} (g : Good s) (a : Act) :
+    (actCore cfg self s a).All Good := by
   cases a with
   | spawn n =>
-    simp only [act]
+    simp only [actCore]
     split
     · exact say_good g _
     · split
@@ -730,24 +730,24 @@ theorem act_good (cfg : Cfg) (self : Option ObjId) {s : State} (g : Good s) (a :
       · refine say_good (setTargetName_good (spawnObj_good g) ?_ n) _
         simp [spawnObj]
   | setName w n =>
-    simp only [act]
+    simp only [actCore]
     split
     · exact say_good g _
     · exact say_good g _
     · rename_i o h; exact setTargetName_good g (resolve_live h) n
   | delete w =>
-    simp only [act]
+    simp only [actCore]
     split
     · exact say_good g _
     · exact say_good g _
     · exact destroy_good g _
   | mark w =>
-    simp only [act]
+    simp only [actCore]
     split
     · exact g.of_same rfl rfl rfl rfl rfl rfl rfl rfl
     · exact say_good g _
   | hello =>
-    simp only [act]
+    simp only [actCore]
     split <;> exact say_good g _
   | capture v n =>
     refine ⟨g.inv.of_same rfl rfl rfl rfl rfl rfl rfl, ?_⟩
@@ -764,16 +764,27 @@ theorem act_good (cfg : Cfg) (self : Option ObjId) {s : State} (g : Good s) (a :
     · subst e; rw [upd_same]; exact g.vals w
     · rw [upd_other _ _ e]; exact g.vals k
   | query src =>
-    simp only [act]
+    simp only [actCore]
     split
     · exact foldl_sayId_good _ (say_good g _)
     · trivial
   | size src =>
-    simp only [act]
+    simp only [actCore]
     split
     · exact say_good g _
     · trivial
   | index src k => exact sayIndex_good g _ k
+
+theorem note_good (cfg : Cfg) {s : State} (g : Good s) (x : Option Src) : Good (note cfg s x) := by
+  unfold note
+  split
+  · split
+    · exact say_good g _
+    · exact g
+  · exact g
+
+theorem act_good (cfg : Cfg) (self : Option ObjId) {s : State} (g : Good s) (a : Act) :
+    (act cfg self s a).All Good := actCore_good cfg self (note_good cfg g _) a
 
 theorem acts_good (cfg : Cfg) (self : Option ObjId) (h : List Act) {s : State} (g : Good s) :
     (acts cfg self h s).All Good := by
@@ -848,13 +859,13 @@ theorem fieldSet_good (cfg : Cfg) (src : Src) (x : Nat) {s : State} (g : Good s)
 theorem stmt_good (cfg : Cfg) {s : State} (g : Good s) (st : Stmt) : (stmt cfg s st).All Good := by
   cases st with
   | act a => exact act_good cfg none g a
-  | fan src h => exact fanOut_good cfg (fun st o gst _ => acts_good cfg (some o) h gst) src g
+  | fan src h => exact fanOut_good cfg (fun st o gst _ => acts_good cfg (some o) h gst) src (note_good cfg g _)
   | fanName src n =>
     exact fanOut_good cfg (run := fun st o => .ok (setTargetName st o n))
-      (fun st o gst ho => setTargetName_good gst ho n) src g
+      (fun st o gst ho => setTargetName_good gst ho n) src (note_good cfg g _)
   | fanDelete src =>
-    exact fanOut_good cfg (run := fun st o => .ok (destroy st o)) (fun st o gst _ => destroy_good gst o) src g
-  | fieldSet src x => exact fieldSet_good cfg src x g
+    exact fanOut_good cfg (run := fun st o => .ok (destroy st o)) (fun st o gst _ => destroy_good gst o) src (note_good cfg g _)
+  | fieldSet src x => exact fieldSet_good cfg src x (note_good cfg g _)
 
 theorem run_good (cfg : Cfg) (l : List Stmt) {s : State} (g : Good s) : (run cfg l s).All Good := by
   induction l generalizing s with
